@@ -17,6 +17,8 @@ struct Tape {
   bool exhausted() const { return pos >= w.size(); }
   // uniform-ish in [0,n) ; small tape words give small results
   uint32_t below(uint32_t n) { uint32_t r = raw(); return n ? r % n : 0; }
+  // like below() but small tape words are spread over the whole range (0 still maps to 0)
+  uint32_t spread(uint32_t n) { uint64_t r = raw(); return n ? (uint32_t)((r * 0x9E3779B97F4A7C15ull >> 20) % n) : 0; }
   // inclusive range
   int range(int lo, int hi) { return lo + (int)below((uint32_t)(hi - lo + 1)); }
   bool chance(uint32_t num, uint32_t den) { return below(den) >= den - num; } // 0 -> false
